@@ -106,6 +106,57 @@ reg(
 )
 
 
+reg(
+    "C09",
+    "translation_validation",
+    "The four JSON string-body writers are evaluated from MIR on a boundary-complete character set (all of U+0000..U+00FF, "
+    "every UTF-8 length / UTF-16 plane boundary, U+10FFFF) and on multi-escape strings: each body must decode back under RFC 8259 "
+    "section 7, be escaped exactly when the convention requires, and use the documented spelling. The vectorised escape scanner "
+    "(AVX2 arm, SSE2 arm, scalar, public entry under both detection outcomes) is evaluated on every byte value at every code region "
+    "and on a boundary-complete (length, start, needle position) family against 'first special byte at or after start'. T1 decides dispatch.",
+    [
+        only_cfgs(_lazy("charmap", "rule_json_writers"), ["cli"]),
+        only_cfgs(_lazy("scantab", "rule_escape_scanner"), ["cli"]),
+        T1_ALL,
+    ],
+    quick=["cli"],
+    technique="finite-domain evaluation of writer/scanner MIR vs RFC 8259 escape table and first-match definition + target-feature dominance",
+    design_ref="§3 CHARMAP/CLASS/KSHAPE-K3 (realised as CHARMAP+SCANTAB), §4 C09",
+)
+
+TABLES_C02 = [
+    only_cfgs(_lazy("tables", "rule_tables"), ["cli"]),
+    only_cfgs(_lazy("tables", "rule_select_in_byte"), ["cli"]),
+    only_cfgs(_lazy("tables", "rule_block_popcount_lanes"), ["cli"]),
+    _lazy("tables", "rule_popcount_portable_units"),
+]
+reg(
+    "C02",
+    "translation_validation",
+    "Compiler-evaluated lookup tables (select-in-byte, BP byte min/max/total excess, find-close) equal their bit-at-a-time definition on "
+    "every entry; select_in_byte equals its definition for every byte and k (incl. k>=8 guard); the AVX2 block popcount's lane function equals "
+    "popcount at every byte position and does not overflow on saturated blocks; the portable SWAR popcount is checked on all unit-byte words and "
+    "saturated words (necessary condition for its constants). T1 decides PDEP/AVX2 dispatch. 64-bit arithmetic of select_in_word variants is not decided.",
+    TABLES_C02 + [T1_ALL],
+    quick=["cli", "simd"],
+    technique="const-evaluated table comparison + finite-domain evaluation of kernel MIR + target-feature dominance",
+)
+reg(
+    "C01",
+    "other",
+    "Structural clauses of BitVec exactness: popcount strategies (portable SWAR on unit-byte and saturated words, AVX2 block kernel lanes) "
+    "equal popcount; dispatch of AVX2/BMI2/AVX-512 kernels is dominated by detection (T1) in the default and simd builds. "
+    "Directory arithmetic and sampled select are not decided.",
+    [
+        only_cfgs(_lazy("tables", "rule_block_popcount_lanes"), ["cli"]),
+        _lazy("tables", "rule_popcount_portable_units"),
+        T1_ALL,
+    ],
+    quick=["cli", "simd"],
+    technique="finite-domain evaluation of kernel MIR + target-feature dominance dataflow",
+)
+
+
 def run(pid, tier, only=None, replay=None):
     if pid not in REGISTRY:
         print("property %s is not claimed (see MANIFEST.not_applicable)" % pid)
